@@ -15,12 +15,15 @@ V = os.path.dirname(os.path.dirname(os.path.abspath(__file__)))
 def main():
     args = sys.argv[1:]
     tier, d, ids, checks = "quick", os.path.join(V, "seeded"), [], None
+    resp_override = None
     i = 0
     while i < len(args):
         if args[i] == "--tier":
             tier = args[i + 1]; i += 1
         elif args[i] == "--dir":
             d = args[i + 1]; i += 1
+        elif args[i] == "--results":
+            resp_override = args[i + 1]; i += 1
         elif args[i] == "--checks":
             checks = args[i + 1].split(","); i += 1
         else:
@@ -28,7 +31,7 @@ def main():
         i += 1
     if not ids:
         ids = sorted(x for x in os.listdir(d) if os.path.isfile(os.path.join(d, x, "patch.diff")))
-    resp = os.path.join(d, "RESULTS.json")
+    resp = resp_override or os.path.join(d, "RESULTS.json")
     try:
         results = json.load(open(resp))
     except Exception:
